@@ -190,6 +190,10 @@ def collect_atoms(body):
     def visit(e):
         if not isinstance(e, list) or not e:
             return
+        if not isinstance(e[0], str):
+            for x in e:                          # a plain list of nodes (argument list, statement list)
+                visit(x)
+            return
         if e[0] == "macro" and e[1].startswith(("assert", "debug_assert", "$crate::assert")):
             return                               # assertions are not part of the printer's layout decisions
         if e[0] == "if" and e[1][0] != "letx":
